@@ -356,6 +356,7 @@ func C16() *vk.Check {
 
 func runC16(c *vk.Ctx) {
 	c16Concurrent(c)
+	c16FailingWriter(c)
 	n := c.N(20000, 1000000)
 	for i := 0; i < n; i++ {
 		if !c.Mine(i) {
@@ -461,6 +462,70 @@ func c16Concurrent(c *vk.Ctx) {
 				gp, _, _ := codec.Decode(got[j])
 				c.Violate("concurrent-parse-differs", fmt.Sprintf("%d programs assembled at the same time: program %d comes out as %v (err %v), alone as %v", k, j, trunc([]byte(strings.Join(codec.Strings(gp), "; ")), 200), errs[j], trunc([]byte(strings.Join(codec.Strings(srcs[j].Expect), "; ")), 200)), key,
 					map[string]interface{}{"source": srcs[j].Text})
+				break
+			}
+		}
+	}
+}
+
+// keepWriter accepts n bytes and then fails (a full device, a closed pipe); what it accepted is kept.
+type keepWriter struct {
+	n int
+	b []byte
+}
+
+func (w *keepWriter) Write(p []byte) (int, error) {
+	if len(p) > w.n {
+		k := w.n
+		w.b = append(w.b, p[:k]...)
+		w.n = 0
+		return k, fmt.Errorf("write: no space left on device")
+	}
+	w.n -= len(p)
+	w.b = append(w.b, p...)
+	return len(p), nil
+}
+
+// c16FailingWriter: the output refuses to take everything. Whenever asm.Parse reports success, what the writer
+// accepted must be the complete program (what the same source assembles to into a buffer); a write that failed must
+// come back as an error, wherever in the source the refused bytes come from (plain lines, the batch menu at the end).
+func c16FailingWriter(c *vk.Ctx) {
+	n := c.N(600, 20000)
+	for i := 0; i < n; i++ {
+		if !c.Mine(i) {
+			continue
+		}
+		key := fmt.Sprintf("fullwriter/%d", i)
+		if !c.Want(key) {
+			continue
+		}
+		r := c.RNG(key)
+		s := genC16(r, false)
+		full := bytes.NewBuffer(nil)
+		if _, err := asm.Parse(s.Text, full); err != nil || full.Len() == 0 {
+			continue
+		}
+		c.Begin(key)
+		caps := []int{0, 1, full.Len() - 1, full.Len() - 2, full.Len() / 2}
+		for k := 0; k < 6; k++ {
+			caps = append(caps, r.Intn(full.Len()))
+		}
+		for _, cp := range caps {
+			if cp < 0 || cp >= full.Len() {
+				continue
+			}
+			w := &keepWriter{n: cp}
+			var err error
+			pv, stack := vk.Guard(func() { _, err = asm.Parse(s.Text, w) })
+			c.EvalN(1, 1)
+			c.Count("assemblies_into_a_writer_that_fills_up", 1)
+			csd := map[string]interface{}{"source": s.Text, "writer_capacity": cp, "program_bytes": full.Len()}
+			if pv != nil {
+				c.Violate("fullwriter:"+vk.PanicSig(pv, stack), fmt.Sprintf("asm.Parse panics when the writer fails after %d bytes: %v", cp, pv), key, csd)
+				break
+			}
+			if err == nil {
+				c.Violate("fullwriter:success-with-incomplete-output", fmt.Sprintf("asm.Parse returns nil although the writer accepted only %d of the program's %d bytes", len(w.b), full.Len()), key, csd)
 				break
 			}
 		}
